@@ -64,6 +64,8 @@ def replaceable_expressions(root):
                                ast.Lambda, ast.ListComp, ast.SetComp, ast.DictComp, ast.GeneratorExp, ast.Slice, ast.Starred,
                                ast.withitem, ast.ExceptHandler, ast.AnnAssign, ast.Global, ast.Nonlocal, ast.Delete, ast.AugAssign)):
             continue
+        if isinstance(parent, getattr(ast, 'pattern', ())) or isinstance(parent, getattr(ast, 'match_case', ())):
+            continue        # inside `case ...:` a bare name is a capture, not an expression: `case __e__:` would be another pattern
         for field, value in ast.iter_fields(parent):
             if isinstance(parent, ast.Call) and field == 'func':
                 continue
